@@ -389,3 +389,63 @@ Proof.
   pose proof (open_prefers_newer rd flen dps ps HP HL V0 V1) as H. cbv zeta in H.
   destruct (N.ltb_spec (m_txid (meta0 rd)) (m_txid (meta1 rd ps))) as [Hlt|Hge]; [lia|]. apply H. exact HM.
 Qed.
+
+(** * the accounting decision procedure is also COMPLETE (C19): it says "no" exactly when some id is missing, out of
+      range or listed twice *)
+From Coq Require Import Sorting.Sorted.
+
+Lemma eqlN_refl a : eqlN a a = true.
+Proof. induction a as [|x a IH]; simpl; [reflexivity|]. now rewrite N.eqb_refl, IH. Qed.
+
+Lemma ss_lt_unique l1 : forall l2, StronglySorted N.lt l1 -> StronglySorted N.lt l2 ->
+  (forall x, In x l1 <-> In x l2) -> l1 = l2.
+Proof.
+  induction l1 as [|a l1 IH]; intros [|b l2] S1 S2 E.
+  - reflexivity.
+  - exfalso. apply (proj2 (E b)). left; reflexivity.
+  - exfalso. apply (proj1 (E a)). left; reflexivity.
+  - inversion S1 as [|? ? S1' F1]; inversion S2 as [|? ? S2' F2]; subst.
+    rewrite Forall_forall in F1, F2.
+    assert (a = b).
+    { destruct (proj1 (E a) (or_introl eq_refl)) as [->|Ha]; [reflexivity|].
+      destruct (proj2 (E b) (or_introl eq_refl)) as [->|Hb]; [reflexivity|].
+      pose proof (F2 _ Ha). pose proof (F1 _ Hb). lia. }
+    subst b. f_equal. apply IH; auto.
+    intros x. split; intros Hx.
+    + destruct (proj1 (E x) (or_intror Hx)) as [->|H]; [|exact H]. pose proof (F1 _ Hx). lia.
+    + destruct (proj2 (E x) (or_intror Hx)) as [->|H]; [|exact H]. pose proof (F2 _ Hx). lia.
+Qed.
+
+Lemma run_nat_ss p n : StronglySorted N.lt (run_nat p n).
+Proof.
+  revert p; induction n as [|n IH]; intros p; simpl; constructor; [apply IH|].
+  apply Forall_forall. intros x Hx. apply run_nat_in in Hx. lia.
+Qed.
+
+Lemma sortN_ss_le l : StronglySorted N.le (sortN l).
+Proof.
+  apply Sorted_StronglySorted; [intros x y z; apply N.le_trans|].
+  pose proof (sortN_sorted l) as H. induction H as [|a l' Hs IH Hr]; constructor; auto.
+  destruct Hr as [|b l'' Hab]; constructor. apply N.leb_le. exact Hab.
+Qed.
+
+Lemma ss_le_nodup_lt l : StronglySorted N.le l -> NoDup l -> StronglySorted N.lt l.
+Proof.
+  induction 1 as [|a l S IH F]; intros ND; constructor.
+  - apply IH. inversion ND; assumption.
+  - inversion ND as [|? ? Hn ND']; subst. rewrite Forall_forall in *. intros x Hx.
+    pose proof (F x Hx). assert (a <> x) by (intros ->; tauto). lia.
+Qed.
+
+Theorem accounted_complete (v : dbview) free :
+  let all := page_ids (v_pages v) ++ v_flpage v ++ free in
+  NoDup all -> (forall id, In id all <-> 2 <= id < m_mark (v_meta v)) -> accounted v free = true.
+Proof.
+  intros all ND E. unfold accounted. fold all.
+  assert (X : sortN all = run 2 (m_mark (v_meta v) - 2)).
+  { apply ss_lt_unique.
+    - apply ss_le_nodup_lt; [apply sortN_ss_le|]. eapply Permutation.Permutation_NoDup; [apply sortN_perm | exact ND].
+    - apply run_nat_ss.
+    - intros x. rewrite sortN_in, E, run_in. lia. }
+  rewrite X. apply eqlN_refl.
+Qed.
